@@ -59,7 +59,7 @@ ASSUMPTIONS = [
     'schedules are sampled (switch interval 1e-6 + seeded yields at statement boundaries), not enumerated',
 ]
 FLOORS = {
-    'quick': {'histories': 200, 'steps_compared': 3400, 'steps_agree': 2800, 'deferred_or_shared_object_uses': 600,
+    'quick': {'idreuse_attempts': 300, 'histories': 200, 'steps_compared': 3400, 'steps_agree': 2800, 'deferred_or_shared_object_uses': 600,
               'deferred_uses': 150, 'parses_state_monitored': 2400, 'fresh_evaluations': 200,
               'fresh_determinism_checked': 15, 'good_parse_after_failed_parse_same_object': 200,
               'via:api': 300, 'via:gen': 300, 'via:compile': 2000, 'drops': 100,
@@ -80,9 +80,9 @@ PEAK_COUNTERS = ('peak_compiled_grammar_cache', 'peak_bind_cache', 'peak_semanti
 SHARD_TIMEOUT = {'quick': 1800, 'thorough': 7200}
 
 N_HIST = {'quick': 300, 'thorough': 5000}
-N_THREAD_RUNS = {'quick': 40, 'thorough': 800}
+N_THREAD_RUNS = {'quick': 128, 'thorough': 1600}
 HIST_SHARDS = {'quick': 12, 'thorough': 48}
-THREAD_SHARDS = {'quick': 4, 'thorough': 16}
+THREAD_SHARDS = {'quick': 8, 'thorough': 16}
 
 WORKER_TIMEOUT = 180
 # per-shard budget of interpreter launches spent on explaining / re-running / shrinking divergences
@@ -308,6 +308,8 @@ def plan(tier, seed):
     for i in range(kt):
         shards.append({'mode': 'threads', 'seed': seed, 'tier': tier, 'shard': i,
                        'n': nt // kt + (1 if i < nt % kt else 0)})
+    for i in range(2 if tier == 'quick' else 8):
+        shards.append({'mode': 'idreuse', 'seed': seed, 'tier': tier, 'shard': i, 'n': 300 if tier == 'quick' else 1500})
     return shards
 
 
@@ -786,15 +788,76 @@ def run_hist(desc, acc):
                         'length': len(steps)})
 
 
+def run_idreuse(desc, acc):
+    """two-step histories with FORCED id() reuse between client objects: a semantics object without actions is
+    used, dropped and collected, and the next semantics object is allocated at the same address (CPython hands a
+    freed block to the next object of that size).  The result of the second call may depend on its arguments
+    only: it is compared with the same call made with an object whose address was never used before."""
+    import gc
+    import tatsu
+    from tatsu.ngcodegen.ngparser_gen import pythongen
+    import types
+    G = C.GRAMMARS['plain']
+    rng = random.Random(h64(ID, desc['seed'], 'idreuse', desc['shard']))
+    model = tatsu.compile(G, name='IdReuse')
+    mod = types.ModuleType('vt_c10_idreuse')
+    exec(compile(pythongen(model), '<generated>', 'exec'), mod.__dict__)  # noqa: S102
+    parser = mod.IdReuseParser()
+    keep = []   # references that pin the addresses of the reference objects
+    texts = ['1 + 2', '7', 'ab + 3', '10 + x + 4']
+    routes = {
+        'model.parse': lambda t, sem: model.parse(t, semantics=sem),
+        'tatsu.parse': lambda t, sem: tatsu.parse(G, t, semantics=sem),
+        'generated-parser-object': lambda t, sem: parser.parse(t, semantics=sem),
+    }
+    for i in range(desc['n']):
+        route = rng.choice(sorted(routes))
+        text = rng.choice(texts)
+        k = rng.choice([2, 3])
+        ref_sem = C.SemScale(k)
+        keep.append(ref_sem)
+        expected = C.canon(routes[route](text, ref_sem))
+        first = C.SemNone()
+        addr = id(first)
+        routes[route](text, first)
+        del first
+        gc.collect()
+        cands = [C.SemScale(k) for _ in range(64)]
+        pick = next((c for c in cands if id(c) == addr), None)
+        acc.evaluations += 1
+        acc.count('idreuse_attempts')
+        if pick is None:
+            # on the tree as found TatSu's action cache pins every semantics object, so nothing is ever collected and
+            # no address is reused (a leak, not a wrong result): then this monitor observes attempts only
+            keep.extend(cands[:1])
+            continue
+        acc.count('idreuse_hits')
+        acc.nontriv('idreuse', route, text, k, i)
+        got = C.canon(routes[route](text, pick))
+        if got != expected:
+            acc.violation(f'history/id-reuse:semantics/{route}',
+                          f'{route}({text!r}, semantics=SemScale({k})) gave {short(got)} when the semantics object lives at the address of an '
+                          f'earlier, collected semantics object without actions; with a never-used address it gives {short(expected)}',
+                          {'mode': 'idreuse', 'route': route, 'text': text, 'k': k, 'steps': []})
+            return
+        del pick, cands
+    acc.sample({'mode': 'idreuse', 'grammar': G, 'texts': texts})
+
+
 def run_shard(desc, acc):
     if desc['mode'] == 'hist':
         run_hist(desc, acc)
+    elif desc['mode'] == 'idreuse':
+        run_idreuse(desc, acc)
     else:
         from ..monitors import c10_threads as T
         T.run_threads_shard(desc, acc, ID)
 
 
 def replay(w, acc):
+    if w.get('mode') == 'idreuse':
+        run_idreuse({'seed': 0, 'shard': 0, 'n': 300}, acc)
+        return
     if w.get('mode') == 'threads':
         from ..monitors import c10_threads as T
         T.replay(w, acc, ID)
